@@ -26,6 +26,14 @@ Interpretation decisions (so that the oracle does not demand more than the state
   * fork rule (DESIGN.md par. 4): first and last solution cell are forks iff > 1 neighbour, interior iff > 2;
     always_include_endpoints adds both ends; index order is free, coordinates must match the indices.
   * only in-grid connection arrays (bottom-row "down" / right-column "right" bits are 0, as documented).
+  * a call that modifies one of its arguments (or the maze's arrays), the answer to an EMPTY edge batch and the fork rule on walks
+    that revisit cells are not in the statement: Layer M (M:argument_modified:<call>, M:is_connection_empty_batch,
+    M:nonsimple_solution:<clause>).  The CONSEQUENCES of aliasing are Layer P: arguments are overwritten before the result is
+    read and later views are judged against the connection structure logged before the first call.
+  * maze objects that are not built by the plain constructor (load(serialize()), factories, subclasses, other array layouts) are
+    judged against the connection structure read from the OBJECT after construction (what a factory does is not C13's subject).
+  * coordinates / paths / batches are signed-integer ndarrays (the documented argument types); tuples, lists and unsigned arrays
+    are not passed to the graph queries (nodes_connected subtracts its arguments).  Solutions are also given as lists (documented).
   * is_connection is judged on lattice edges only (both orientations); lattice_max_degrees(1) is outside the
     statement (a 1x1 lattice has no edges; the helper returns 2) and only reported as a note.
 """
@@ -807,6 +815,12 @@ def _synthetic():
             [[[0, 1]], [0], [[0, 1]], [0], [[0, 1]], [], []],
             [[[1, 0]], [], [], [0], [[1, 0]], [0], [[1, 0]]],
         ],
+        argmod=[], isconn0=[0],
+        # walks that revisit cells: there and back from a dead end; start on the junction, return to it, leave it
+        sols_m=[
+            [[[0, 0], [0, 1], [0, 0]], [1], [[0, 1]], [0, 1, 2], [[0, 0], [0, 1], [0, 0]], [0, 2], [[0, 0], [0, 0]]],
+            [[[0, 1], [0, 0], [0, 1], [1, 1]], [0, 2, 3], [[0, 1], [0, 1], [1, 1]], [0, 2, 3], [[0, 1], [0, 1], [1, 1]], [1], [[0, 0]]],
+        ],
     )
     #   (0,0)-(0,1)
     #           |
@@ -823,11 +837,12 @@ def _synthetic():
         rt=[[0, 0, 1, cn], [1, 1, 1, cn]],
         isconn=[[[0, 0], [0, 1], 1], [[1, 1], [1, 0], 0]],
         sols=[[[[0, 0], [0, 1], [1, 1]], [], [], [0, 2], [[0, 0], [1, 1]], [0, 1, 2], [[0, 0], [0, 1], [1, 1]]]],
+        argmod=[], isconn0=[], sols_m=[],
     )
     lat = dict(
         kind="lattice", job=["synthetic", "lat2"], n=2, err=[],
         lca=[[[0, 0], [0, 1]], [[1, 0], [1, 1]], [[0, 0], [1, 0]], [[0, 1], [1, 1]]], md=[1, 1, 1, 1],
-        md2=[[[0, 0], [1, 1], 2], [[0, 1], [0, 1], 0], [[1, 0], [0, 0], 1]], maxdeg=[[2, 2], [2, 2]],
+        md2=[[[0, 0], [1, 1], 2], [[0, 1], [0, 1], 0], [[1, 0], [0, 0], 1]], maxdeg=[[2, 2], [2, 2]], argmod=[],
     )
     return a, b, lat
 
@@ -877,6 +892,12 @@ def _canaries():
     mut(a, lambda y: y["sols"][0][6].__setitem__(1, [0, 1]), "path_following_coords")
     mut(a, lambda y: (y["sols"][0][5].append(1), y["sols"][0][6].append([0, 1])), "forks_and_following_partition")
     mut(a, lambda y: y["err"].append("coord_degrees"), "raised_or_malformed:coord_degrees")
+    mut(a, lambda y: y["argmod"].append("is_connection"), "M:argument_modified:is_connection")
+    mut(a, lambda y: y["argmod"].append("maze:deg"), "M:argument_modified:maze:deg")
+    mut(a, lambda y: y["isconn0"].__setitem__(0, -1), "M:is_connection_empty_batch")
+    mut(a, lambda y: (y["sols_m"][0][1].append(2), y["sols_m"][0][2].append([0, 0])), "M:nonsimple_solution:fork_idxs")  # revisited start taken for an endpoint fork
+    mut(a, lambda y: (y["sols_m"][1][1].remove(2), y["sols_m"][1][2].pop(1), y["sols_m"][1][3].remove(2), y["sols_m"][1][4].pop(1), y["sols_m"][1][5].append(2), y["sols_m"][1][6].append([0, 1])), "M:nonsimple_solution:fork_idxs")  # revisited junction not a fork
+    mut(lat, lambda y: y["argmod"].append("manhattan_distance"), "M:argument_modified:manhattan_distance")
     mut(b, lambda y: y["rt"][0][3][0][0].__setitem__(1, 0), "from_adj_list_roundtrip")
     mut(b, lambda y: y["rt"][1][3][1][1].__setitem__(0, 1), "from_adj_list_roundtrip")  # stored at the greater endpoint
     mut(b, lambda y: y["rt"].__setitem__(1, [1, 1, 0, []]), "from_adj_list_roundtrip")  # raised
@@ -940,6 +961,11 @@ def main(chk: lib.Check) -> int:
         "dfs+percolation, partial dfs, full) up to 15x15 incl. oblong and 1xn; histories: one maze object queried 3x in forward / reversed / "
         "scrambled view order with all returned arrays overwritten in between + a fresh equal maze, shapes in decreasing / scrambled / A-B-A / "
         "increasing order in one process; magnitudes: 12x12..20x20, 2x70, 70x2, 3x90 with solutions of 140..400 cells; "
+        "arguments: every cell / path / edge batch / adjacency list / solution is the caller's own ndarray (int64, int8, int16, int32; "
+        "contiguous, Fortran-ordered, strided views), compared with a snapshot after the call and overwritten before the result is read; "
+        "the maze object is built directly, from Fortran-ordered / strided arrays, by load(serialize()), as SolvedMaze / TargetedLatticeMaze, "
+        "through from_lattice_maze / from_targeted_lattice_maze, with generation metadata, or is the generator's own object; flags by keyword, "
+        "positional and left out; one- and two-cell paths and solutions with every flag on the larger mazes; empty and one-edge batches; "
         "non-trivial = at least one connection and one wall"
     )
     # ---- (A) design-level model checking, started in the background while the real code is observed
@@ -994,6 +1020,14 @@ def main(chk: lib.Check) -> int:
             tot["oblong"] += x["R"] != x["C"]
             tot["max_cells"] = max(tot["max_cells"], x["R"] * x["C"])
     chk.notes["view_evaluations"] = tot
+    mrecs = [x for x in recs if x["kind"] == "maze"]
+    chk.notes["maze_object_provenance"] = {p: sum(1 for x in mrecs if x.get("prov") == p) for p in sorted({x.get("prov") for x in mrecs})}
+    chk.notes["argument_aliasing"] = (
+        "every array argument is the caller's own object: snapshot -> call -> compare (M:argument_modified) -> overwrite -> read the result; "
+        f"calls that modified an argument or the maze: {sum(len(x['argmod']) for x in recs)}; "
+        f"walks that revisit cells judged as Layer M: {sum(len(x['sols_m']) for x in mrecs)}; "
+        f"one-/two-cell solutions: {sum(1 for x in mrecs for s in x['sols'] if len(s[0]) <= 2)}; one-/two-cell paths: {sum(1 for x in mrecs for q in x['paths'] if 1 <= len(q[0]) <= 2)}"
+    )
     chk.notes["history_records"] = sum(1 for x in recs if x["job"][0] == "hist")
     chk.notes["magnitude_cases"] = [[x["R"], x["C"], x.get("gen"), max((len(s[0]) for s in x["sols"]), default=0)] for x in recs if x["job"][0] == "big"]
     small_rec = next(x for x in recs if x["kind"] == "maze" and x["R"] == 2 and x["C"] == 2 and _nontrivial(x))
